@@ -14,23 +14,23 @@ import (
 // W is the scenario-facing world: the simulator plus the run's bookkeeping.
 type W struct {
 	*simrt.World
-	T        *simrt.Tape
-	Prop     string
-	Scenario string
-	RunIdx   int
-	ScenOrd  int // this is the ScenOrd-th run of its scenario
-	Seed     uint64
-	addrN    int
-	Shape    map[string]interface{} // decoded scenario shape, for evidence
-	Prog     []string               // decoded program (operations), for evidence/replay files
-	Delivery int                    // deliveries observed (progress measure)
-	States   map[uint64]bool        // abstract model-state hashes at settles
-	Incon    map[string]int         // inconclusive counters
-	Free     bool                   // engine F
-	Real     bool                   // engine R (no bubble, wall clock)
-	Known    []string
-	cleanup  []func()
-	socks    []mangos.Socket // every socket made by Sock, for the end-of-run hygiene
+	T         *simrt.Tape
+	Prop      string
+	Scenario  string
+	RunIdx    int
+	ScenOrd   int // this is the ScenOrd-th run of its scenario
+	Seed      uint64
+	addrN     int
+	Shape     map[string]interface{} // decoded scenario shape, for evidence
+	Prog      []string               // decoded program (operations), for evidence/replay files
+	Delivery  int                    // deliveries observed (progress measure)
+	States    map[uint64]bool        // abstract model-state hashes at settles
+	Incon     map[string]int         // inconclusive counters
+	Free      bool                   // engine F
+	Real      bool                   // engine R (no bubble, wall clock)
+	Known     []string
+	cleanup   []func()
+	socks     []mangos.Socket // every socket made by Sock, for the end-of-run hygiene
 	NoHygiene bool
 }
 
@@ -94,16 +94,16 @@ func (w *W) StateHash(h uint64) { w.States[h] = true }
 
 // Call is one harness-level API call executed on its own task.
 type Call struct {
-	Label      string
-	InvStep    int64
-	RetStep    int64
-	InvTime    time.Duration
-	RetTime    time.Duration
-	Err        error
-	Val        interface{}
-	Done       *simrt.Event
-	w          *W
-	NoLockChk  bool
+	Label     string
+	InvStep   int64
+	RetStep   int64
+	InvTime   time.Duration
+	RetTime   time.Duration
+	Err       error
+	Val       interface{}
+	Done      *simrt.Event
+	w         *W
+	NoLockChk bool
 }
 
 // Do runs fn on a new task, recording invoke/return and checking the
